@@ -25,9 +25,13 @@ TextTerms == Strs(MaxTextLen) \ {<<>>}
 Term == TextTerms \cup {Star}
 NoAdjText(p) == \A i \in 1..(Len(p) - 1) : ~(p[i] # Star /\ p[i + 1] # Star)
 Patterns == {p \in UNION {[1..m -> Term] : m \in 1..MaxTerms} : NoAdjText(p)} \cup {<< <<>> >>}   \* + the empty literal
+\* tokens: numbers in every spelling the decimal syntax of QueryRef!IsNum has (leading point, trailing point, sign,
+\* exponent, leading zero) and strings that only look like numbers
 NumPalette == {<<>>, <<"1">>, <<"2">>, <<"1", "0">>, <<"-", "1">>, <<"1", "e", "1">>, <<"1", ".", "5">>,
-               <<"0", "1">>, <<"a">>, <<"-">>, <<"1", "a">>}
-Ends == {Star, <<>>, <<"1">>, <<"2">>, <<"1", "0">>, <<"-", "1">>, <<"1", "e", "1">>, <<"1", ".", "5">>, <<"a">>}
+               <<"0", "1">>, <<"a">>, <<"-">>, <<"1", "a">>,
+               <<".", "5">>, <<"-", ".", "5">>, <<"2", ".">>, <<"+", "1">>, <<".">>, <<"+">>, <<"1", "e">>, <<"e", "1">>}
+Ends == {Star, <<>>, <<"1">>, <<"2">>, <<"1", "0">>, <<"-", "1">>, <<"1", "e", "1">>, <<"1", ".", "5">>, <<"a">>,
+         <<".", "5">>, <<"+", "1">>}
 
 \* sorted sequence of a set of strings (bytewise order)
 SortedSeq(D) == SetToSortSeq(D, StrLess)
